@@ -17,6 +17,7 @@ CLAIMS = {
  'C06': dict(text='Ring.tla models Drop in every status, the cancel request and both outcomes of the cancel race; TLC checks CancelOnlyDropped/FreedIsFinal/NoLeakAtQuiescence; the replay compares the cancel entries the simulated kernel receives (target = own user_data) and the OpFree events / allocator frees per action, and takes a leak census after tearing the ring down at the end of every behaviour.', ref='6 C06', technique='TLA+/TLC model checking + exhaustive transition replay with allocator census'),
  'C07': dict(text='Ring.tla tracks every descriptor a completion creates (kernel / owned / closing / closed / leaked) for single-shot and multishot accept; TLC checks NoResLeak and CloseOnce on the contract; the replay runs the same behaviours with a regular and with a direct listener, compares the set of descriptors the simulated kernel holds open after every action, the encoding of every CLOSE (fd vs file_index = slot + 1, CQE_SKIP_SUCCESS), the synchronous fallbacks (close(2) / FILES_UPDATE) when the queue is full and the kind of the wrapping AsyncFd.', ref='6 C07', technique='TLA+/TLC model checking + exhaustive transition replay against the kernel descriptor tables'),
  'C08': dict(text='Ring.tla models the buffer ring (order of offered buffer ids), the buffer selected by each completion and its owner; TLC checks BufPartition / AllBuffersBack / NoResLeak on the contract; the replay compares, after every action, the buffer ring as the simulated kernel reads it from shared memory with the model, and checks that every live ReadBuf sits in its own slot with its bytes intact (single-threaded; 2 buffers).', ref='6 C08', technique='TLA+/TLC model checking + exhaustive transition replay against the provided-buffer ring'),
+ 'C12': dict(text='Ring.tla has a DropRing action (flush, cancel-all, drain) that may fire at any point of a history, after which operations and descriptors can still be dropped; TLC checks RingGoneClean; the replay drops the real Ring at that point, requires nothing to be left in flight, and after every behaviour drops the remaining handles and takes a census: allocator (nothing leaked), mmap/munmap balance with exact lengths, ring descriptor closed, descriptors open in the simulated kernel equal to the model.  Orders covered: operations / AsyncFds / ReadBufs before and after the Ring; pool and queue handle after the Ring.', ref='6 C12', technique='TLA+/TLC model checking + exhaustive transition replay with allocator/mmap/fd census'),
  'C09': dict(text='Ring.tla models the restart branch (EINTR/ECANCELED on a live operation, incl. first completion of a two-step op and end of a multishot stream); TLC checks NeverSurfaces; the replay injects the errno sequences through the simulated kernel and compares the re-published entries and the value finally returned.', ref='6 C09', technique='TLA+/TLC model checking + exhaustive transition replay with errno injection'),
 }
 
